@@ -661,6 +661,85 @@ func splitOps(s string, known map[string]readOp) []string {
 // ---------------------------------------------------------------------------------------------
 // Part B: free-running race pass (this code runs in the -race twin binary)
 
+// crowd: many readers of one DEEP message at once (400 goroutines x a chain nested 400 levels, i.e. far more levels in
+// flight together than any single reader ever has): anything the code under test accounts per process instead of per
+// call shows as a result that differs from the sequential one.
+func crowd(h *hz.H) {
+	for _, name := range []string{"mx.Chain", "mx.ChainL", "mx.Leaf"} {
+		var md protoreflect.MessageDescriptor
+		for _, m := range enum.PulsarTypes() {
+			if string(m.FullName()) == name {
+				md = m
+			}
+		}
+		if md == nil {
+			continue
+		}
+		var self protoreflect.FieldDescriptor
+		fs := md.Fields()
+		for i := 0; i < fs.Len(); i++ {
+			if f := fs.Get(i); f.Message() == md && !f.IsList() && !f.IsMap() {
+				self = f
+				break
+			}
+		}
+		if self == nil {
+			continue
+		}
+		d := enum.NewDyn(md)
+		cur := protoreflect.Message(d)
+		for i := 0; i < 400; i++ {
+			cur = cur.Mutable(self).Message()
+		}
+		shared := enum.BuildGo(d)
+		ops := []struct {
+			name string
+			f    func() string
+		}{
+			{"Marshal", func() string { b, err := proto.Marshal(shared); return fmt.Sprintf("%d bytes err=%v", len(b), err) }},
+			{"Marshal(Deterministic)", func() string {
+				b, err := proto.MarshalOptions{Deterministic: true}.Marshal(shared)
+				return fmt.Sprintf("%d bytes err=%v", len(b), err)
+			}},
+			{"Size", func() string { return fmt.Sprint(proto.Size(shared)) }},
+			{"Clone", func() string { return fmt.Sprint(proto.Size(proto.Clone(shared))) }},
+		}
+		for _, op := range ops {
+			want := op.f()
+			const readers = 400
+			got := make([]string, readers)
+			var wg sync.WaitGroup
+			start := make(chan struct{})
+			for k := 0; k < readers; k++ {
+				k := k
+				wg.Add(1)
+				go func() {
+					defer wg.Done()
+					<-start
+					if p := hz.Catch(func() { got[k] = op.f() }); p != nil {
+						got[k] = fmt.Sprintf("PANIC: %v", p)
+					}
+				}()
+			}
+			close(start)
+			wg.Wait()
+			h.Eval(true, hz.Hash("C11crowd", name, op.name))
+			bad := 0
+			ex := ""
+			for _, g := range got {
+				if g != want {
+					bad++
+					ex = g
+				}
+			}
+			if bad > 0 {
+				h.Violate(fmt.Sprintf("C11/B/crowd-result-differs-from-sequential/%s/%s", name, op.name), fmt.Sprintf("%d of %d concurrent %s calls on one %s nested 400 levels deep observed %s; sequentially %s", bad, readers, op.name, name, clipS(ex), want), c11case{Part: "B", Type: name, Ops: []string{"crowd:" + op.name}})
+			}
+		}
+	}
+	h.Rep.Bounds["partB_crowd"] = "400 readers x chain nested 400 levels x {Marshal, Marshal(Deterministic), Size, Clone}"
+}
+
 // runCold: the process's very first fast-path calls on a type (and on the nested types reached through it) are
 // made by concurrent goroutines. Whatever the generated code initialises lazily per type is initialised here under
 // the race detector. One fresh process per type; the value is built through struct reflection only.
@@ -766,6 +845,7 @@ func runRacePass(h *hz.H) {
 			}
 		}
 	}
+	crowd(h)
 	h.Sample(map[string]interface{}{"part": "B", "types": len(types), "operations": len(all), "tuples": len(tuples), "repetitions": reps})
 }
 
